@@ -964,7 +964,7 @@ class CallPattern(Pattern):
     def __init__(self):
         super().__init__(
             r'^(?P<conditional>if[ \t]*\(.*?\)[ \t]*)?'  # Optional inline-conditional preceeding the call
-            r'call',  # Call keyword
+            r'call[ \t]+(?=[a-z])',  # Call keyword, separated from the name of the called routine
             re.IGNORECASE
         )
 
